@@ -760,4 +760,19 @@ theorem orderStmts_sorted (stmts : List (List (Tok SAtom))) :
       simp only [List.filterMap_cons, h1]
       exact List.Sublist.cons_cons n ih
 
+/-! ## Reads stay inside the span (for C04) -/
+
+/-- For a feasible period every cell the pass reads lies inside the span, at exactly `t + k`: no Python
+    negative-index wrap-around (used by C04 `reads_in_span`). -/
+theorem evalPassR_reads_in_span (ops : Ops F) (loc : String → Int) (es : List (Equation SAtom)) (s : Store F)
+    (lags leads n : Nat) (t : Int)
+    (hk : ∀ e ∈ es, ∀ a ∈ e.rhs.terms, ∃ k, a.idx = .rel k ∧ -(lags : Int) ≤ k ∧ k ≤ leads)
+    (ht : (lags : Int) ≤ t) (ht' : t + leads < n) :
+    ∀ c ∈ (evalPassR ops loc t es s).2.1, 0 ≤ c.2 ∧ c.2 < n := by
+  intro c hc
+  obtain ⟨e, he, a, ha, rfl⟩ := evalPassR_reads ops loc t es s c hc
+  obtain ⟨k, hidx, h1, h2⟩ := hk e he a ha
+  simp only [hidx, Idx.pos]
+  omega
+
 end Fsic.M4
